@@ -272,4 +272,244 @@ theorem payOut_spec {s s' : St} {a n : Nat} (hab : s.ab.length = 5) (ha : a < 5)
     refine ⟨rfl, hle, ?_, by simp [setN_length, hab]⟩
     simp only; omega
 
+/-! ### the borrower's callback: what every successful message preserves -/
+
+theorem run_pay (s : St) (n : Nat) : run s (.pay n) = payIn s 3 n := by simp only [run]
+theorem run_deposit (s : St) (n : Nat) : run s (.deposit n) = deposit s 3 n n := by simp only [run]
+theorem run_withdraw (s : St) (lp : Nat) : run s (.withdraw lp) = withdraw s 3 lp := by simp only [run]
+theorem run_collect (s : St) : run s .collect = collect s := by simp only [run]
+theorem run_transferOut (s : St) (dst n : Nat) : run s (.transferOut dst n) = transferOut s dst n := by
+  simp only [run]
+theorem run_fail (s : St) : run s .fail = none := by simp only [run]
+theorem run_loan (s : St) (n : Nat) (cb : List Act) : run s (.loan n cb) = loanFrom s n cb := rfl
+theorem runs_nil (s : St) : runs s [] = some s := by simp only [runs]
+theorem runs_cons_none {s : St} {a : Act} (as : List Act) (h : run s a = none) :
+    runs s (a :: as) = none := by
+  rw [runs, h]
+theorem runs_cons_some {s s1 : St} {a : Act} (as : List Act) (h : run s a = some s1) :
+    runs s (a :: as) = runs s1 as := by
+  rw [runs, h]
+
+/-- a flash loan requested while a loan is in flight is refused (the repaired guard) -/
+theorem loanFrom_ctr (s : St) (n : Nat) (cb : List Act) (h : s.ctr ≠ 0) : loanFrom s n cb = none := by
+  unfold loanFrom
+  rw [run]
+  simp [h]
+
+/-- no deposit while a loan is in flight (`DepositDuringLoan`) -/
+theorem deposit_ctr (s : St) (who amount sent : Nat) (h : s.ctr ≠ 0) : deposit s who amount sent = none := by
+  unfold deposit
+  have : depositOk s who amount sent = false := by simp [depositOk, h]
+  simp [this]
+
+/-- relation between the state when a callback message starts and the state it leaves -/
+structure CbRel (s s' : St) : Prop where
+  sup : s'.sup ≤ s.sup
+  pend : s'.pend ≤ s.pend
+  ctr : s'.ctr = s.ctr
+  allTime : s'.allTime = s.allTime
+  burned : s'.burned = s.burned
+  assetSupply : s'.assetSupply = s.assetSupply
+  fees : s'.fees = s.fees
+  kind : s'.kind = s.kind
+  lpVault : s'.lpVault = s.lpVault
+
+theorem CbRel.refl (s : St) : CbRel s s := ⟨le_refl _, le_refl _, rfl, rfl, rfl, rfl, rfl, rfl, rfl⟩
+
+theorem CbRel.trans {a b c : St} (h1 : CbRel a b) (h2 : CbRel b c) : CbRel a c :=
+  ⟨le_trans h2.sup h1.sup, le_trans h2.pend h1.pend, h2.ctr.trans h1.ctr, h2.allTime.trans h1.allTime,
+   h2.burned.trans h1.burned, h2.assetSupply.trans h1.assetSupply, h2.fees.trans h1.fees,
+   h2.kind.trans h1.kind, h2.lpVault.trans h1.lpVault⟩
+
+theorem transferOut_spec {s s' : St} {dst n : Nat} (hab : s.ab.length = 5)
+    (h : transferOut s dst n = some s') :
+    s'.ab.length = 5 ∧ s'.ab.sum = s.ab.sum ∧ s' = { s with ab := s'.ab } := by
+  unfold transferOut at h
+  split at h
+  · cases h
+  · rename_i hc
+    injection h with h; subst h
+    have hto : dst < 3 := by omega
+    have h3 : 3 < s.ab.length := by rw [hab]; omega
+    have hlen : (setN s.ab 3 (getN s.ab 3 - n)).length = 5 := by rw [setN_length]; exact hab
+    have s1 := setN_sum s.ab 3 (getN s.ab 3 - n) h3
+    have s2 := setN_sum (setN s.ab 3 (getN s.ab 3 - n)) dst
+      (getN (setN s.ab 3 (getN s.ab 3 - n)) dst + n) (by rw [hlen]; omega)
+    have hn : n ≤ getN s.ab 3 := by omega
+    refine ⟨by simp [setN_length, hab], ?_, rfl⟩
+    simp only; omega
+
+theorem run_cb {s s' : St} {a : Act} (hI : CbInv s) (h : run s a = some s') : CbInv s' ∧ CbRel s s' := by
+  cases a with
+  | pay n =>
+    rw [run_pay] at h
+    obtain ⟨rfl, _, hsum, hlen⟩ := payIn_spec hI.abLen (by omega) h
+    exact ⟨⟨hlen, hI.lbLen, by rw [hsum]; exact hI.assetSum, hI.lpSum, hI.ctrPos⟩,
+      ⟨le_refl _, le_refl _, rfl, rfl, rfl, rfl, rfl, rfl, rfl⟩⟩
+  | deposit n => rw [run_deposit, deposit_ctr _ _ _ _ hI.ctrPos] at h; cases h
+  | withdraw lp =>
+    rw [run_withdraw] at h
+    obtain ⟨a1, a2, a3, a4, a5, a6, a7, a8, a9, a10, a11, a12, a13, a14, hlp, hsup, hpend⟩ :=
+      withdraw_spec_gen hI.abLen hI.lbLen (by omega) h
+    have h3 := getN_le_sum s.lb 3
+    have hl := hI.lpSum
+    refine ⟨⟨a1, a2, ?_, ?_, by rw [a9]; exact hI.ctrPos⟩,
+      ⟨by omega, by omega, a9, a10, a11, a12, a13, a14, a8⟩⟩
+    · rw [a3, a12]; exact hI.assetSum
+    · omega
+  | collect =>
+    rw [run_collect] at h
+    unfold collect at h
+    split at h
+    · injection h with h; subst h; exact ⟨hI, CbRel.refl _⟩
+    · split at h
+      · cases h
+      · injection h with h; subst h
+        have h4 : 4 < s.ab.length := by rw [hI.abLen]; omega
+        have hs := setN_sum s.ab 4 (getN s.ab 4 + s.pend) h4
+        have := hI.assetSum
+        refine ⟨⟨by simp [collectRes, setN_length, hI.abLen], hI.lbLen, ?_, hI.lpSum, hI.ctrPos⟩,
+          ⟨le_refl _, Nat.zero_le _, rfl, rfl, rfl, rfl, rfl, rfl, rfl⟩⟩
+        simp only [collectRes]; omega
+  | transferOut dst n =>
+    rw [run_transferOut] at h
+    obtain ⟨hlen, hsum, heq⟩ := transferOut_spec hI.abLen h
+    rw [heq]
+    exact ⟨⟨hlen, hI.lbLen, by simp only; rw [hsum]; exact hI.assetSum, hI.lpSum, hI.ctrPos⟩,
+      ⟨le_refl _, le_refl _, rfl, rfl, rfl, rfl, rfl, rfl, rfl⟩⟩
+  | fail => rw [run_fail] at h; cases h
+  | loan n cb => rw [run_loan, loanFrom_ctr _ _ _ hI.ctrPos] at h; cases h
+
+theorem runs_cb {s s' : St} {as : List Act} (hI : CbInv s) (h : runs s as = some s') :
+    CbInv s' ∧ CbRel s s' := by
+  induction as generalizing s with
+  | nil => rw [runs_nil] at h; injection h with h; subst h; exact ⟨hI, CbRel.refl _⟩
+  | cons a as ih =>
+    cases h1 : run s a with
+    | none => rw [runs_cons_none as h1] at h; cases h
+    | some s1 =>
+      rw [runs_cons_some as h1] at h
+      obtain ⟨hI1, r1⟩ := run_cb hI h1
+      obtain ⟨hI2, r2⟩ := ih hI1 h
+      exact ⟨hI2, r1.trans r2⟩
+
+/-- a deposit anywhere in a callback makes the whole callback fail -/
+theorem runs_deposit_fails {s : St} {as : List Act} (hI : CbInv s) (n : Nat) (hmem : Act.deposit n ∈ as) :
+    runs s as = none := by
+  induction as generalizing s with
+  | nil => cases hmem
+  | cons a as ih =>
+    cases h1 : run s a with
+    | none => exact runs_cons_none as h1
+    | some s1 =>
+      rw [runs_cons_some as h1]
+      rcases List.mem_cons.mp hmem with rfl | hm
+      · rw [run_deposit, deposit_ctr _ _ _ _ hI.ctrPos] at h1; cases h1
+      · exact ih (run_cb hI h1).1 hm
+
+/-- the same for a nested loan -/
+theorem runs_loan_fails {s : St} {as : List Act} (hI : CbInv s) (n : Nat) (cb : List Act)
+    (hmem : Act.loan n cb ∈ as) : runs s as = none := by
+  induction as generalizing s with
+  | nil => cases hmem
+  | cons a as ih =>
+    cases h1 : run s a with
+    | none => exact runs_cons_none as h1
+    | some s1 =>
+      rw [runs_cons_some as h1]
+      rcases List.mem_cons.mp hmem with rfl | hm
+      · rw [run_loan, loanFrom_ctr _ _ _ hI.ctrPos] at h1; cases h1
+      · exact ih (run_cb hI h1).1 hm
+
+theorem afterTrade_ok_of_some {s s' : St} {old amount : Nat} (h : afterTrade s old amount = some s') :
+    afterTradeOk s old amount = true ∧ s' = afterTradeRes s amount := by
+  unfold afterTrade at h
+  split at h
+  · rename_i hok; injection h with h; exact ⟨hok, h.symm⟩
+  · cases h
+
+/-- everything a successful flash loan guarantees (top level: the counter is zero before) -/
+structure LoanSpec (s s' : St) (amount : Nat) : Prop where
+  inv : Inv s'
+  balGe : s.bal + fee s.fees.prot amount + fee s.fees.flash amount ≤ s'.bal
+  pendLe : s'.pend ≤ s.pend + fee s.fees.prot amount
+  allTime : s'.allTime = s.allTime + fee s.fees.prot amount
+  burned : s'.burned = s.burned + fee s.fees.burn amount
+  assetSupply : s'.assetSupply + fee s.fees.burn amount = s.assetSupply
+  supLe : s'.sup ≤ s.sup
+  ctr : s'.ctr = 0
+  fees : s'.fees = s.fees
+  lpVault : s'.lpVault = s.lpVault
+
+theorem loan_spec {s s' : St} {amount : Nat} {cb : List Act} (hI : Inv s)
+    (h : loanFrom s amount cb = some s') : LoanSpec s s' amount := by
+  unfold loanFrom at h
+  rw [run] at h
+  split at h
+  · cases h
+  split at h
+  · cases h
+  split at h
+  · cases h
+  split at h
+  · cases h
+  rename_i s1 hp
+  split at h
+  · cases h
+  rename_i s2 hr
+  -- the loan leaves
+  have hctr0 := hI.ctr0
+  obtain ⟨hs1, hle, hsum1, hlen1⟩ := payOut_spec (s := { s with ctr := s.ctr + 1 }) (a := 3) (n := amount)
+    hI.abLen (by omega) hp
+  have hI1 : CbInv s1 := by
+    refine ⟨hlen1, ?_, ?_, ?_, ?_⟩
+    · rw [hs1]; exact hI.lbLen
+    · rw [hsum1, hs1]; exact hI.assetSum
+    · rw [hs1]; exact hI.lpSum
+    · rw [hs1]; simp
+  -- the callback runs
+  obtain ⟨hI2, r⟩ := runs_cb hI1 hr
+  have e_sup : s1.sup = s.sup := by rw [hs1]
+  have e_pend : s1.pend = s.pend := by rw [hs1]
+  have e_ctr : s1.ctr = s.ctr + 1 := by rw [hs1]
+  have e_all : s1.allTime = s.allTime := by rw [hs1]
+  have e_bur : s1.burned = s.burned := by rw [hs1]
+  have e_as : s1.assetSupply = s.assetSupply := by rw [hs1]
+  have e_fees : s1.fees = s.fees := by rw [hs1]
+  have e_lpv : s1.lpVault = s.lpVault := by rw [hs1]
+  -- after_trade
+  obtain ⟨hok, rfl⟩ := afterTrade_ok_of_some h
+  simp only [afterTradeOk, Bool.and_eq_true, decide_eq_true_eq] at hok
+  obtain ⟨⟨⟨⟨_, hneed⟩, _⟩, _⟩, _⟩ := hok
+  have hf : s2.fees = s.fees := r.fees.trans e_fees
+  rw [hf] at hneed
+  have hpend2 : s2.pend ≤ s.pend := by have := r.pend; omega
+  have hIp := hI.pendLe
+  have hsum2 := hI2.assetSum
+  have hlp2 := hI2.lpSum
+  have hsup2 : s2.sup ≤ s.sup := by have := r.sup; omega
+  have hbf : fee s.fees.burn amount ≤ s2.bal := by omega
+  have hlv : s2.lpVault = s.lpVault := r.lpVault.trans e_lpv
+  refine ⟨⟨?_, ?_, ?_, ?_, ?_, ?_, ?_⟩, ?_, ?_, ?_, ?_, ?_, ?_, ?_, ?_, ?_⟩
+  all_goals simp only [afterTradeRes, hf]
+  · exact hI2.abLen
+  · exact hI2.lbLen
+  · omega
+  · have := r.assetSupply; omega
+  · exact hlp2
+  · -- the locked minimum: supply can only have shrunk by user withdrawals, the vault's LP is untouched
+    rw [hlv]
+    rcases hI.locked with ⟨h0, h1⟩ | h1
+    · left; exact ⟨by omega, h1⟩
+    · right; exact h1
+  · have := r.ctr; omega
+  · omega
+  · omega
+  · have := r.allTime; omega
+  · have := r.burned; omega
+  · have := r.assetSupply; omega
+  · exact hsup2
+  · have := r.ctr; omega
+  · exact hlv
+
 end WW.Vault
